@@ -166,6 +166,13 @@ func init() {
 	})
 	reg("zzrt.NondetMapOrder", func(e *Engine, fr *frame, args []V) V {
 		e.nondetMapOrder = args[0].N != 0
+		e.mapOrderBudget = -1
+		return V{}
+	})
+	// NondetMapOrderBudget(k): at most k map ranges per path iterate in a perturbed order
+	reg("zzrt.NondetMapOrderBudget", func(e *Engine, fr *frame, args []V) V {
+		e.nondetMapOrder = int64(args[0].N) != 0
+		e.mapOrderBudget = int(int64(args[0].N))
 		return V{}
 	})
 	reg("zzrt.Symbolic", func(e *Engine, fr *frame, args []V) V { return vBool(true) })
